@@ -151,6 +151,45 @@ def sc_interfere(cx, ftype, variant, reads1, muts, r2):
         cx.eq(tag, va, vb)
 
 
+def sc_abs(cx, variant, mut, r2, reads1):
+    """documented-formula oracle (fitlib) instead of the relational one: catches staleness that a freshly built fit shares
+    (e.g. a getter that forgets to push the current parameters into the parametric model)"""
+    pb = _setup(cx, "xy", variant)
+    for r in reads1:
+        _read(pb.fit, r)
+    _mut(cx, pb, mut, tag="m0")
+    p = list(pb.p)
+    if mut == "fix":
+        p[1] = cx.real("m0m_p")
+    elif mut == "set-par":
+        p[0] = cx.real("m0m_p")
+    elif mut == "set-all":
+        p = [cx.real("m0m_p"), cx.real("m0m_p2")]
+    pb.p = p
+    got = _read(pb.fit, r2)
+    tag = "abs:%s after %s then %s (%s)" % (r2, "+".join(reads1) or "no-read", mut, variant)
+    n = pb.n
+    if r2 == "y_model":
+        cx.eq(tag, got, pb.model_values(p))
+    elif r2 == "y_model_cov_mat":
+        cx.eq(tag, got, pb.axis_cov("y", p, which=("model",)))
+    elif r2 == "y_model_error":
+        cx.eq(tag, [got[i] * got[i] for i in range(n)], O.diag(pb.axis_cov("y", p, which=("model",))))
+    elif r2 == "total_cov_mat":
+        cx.eq(tag, got, pb.total_cov(p))
+    elif r2 == "total_error":
+        cx.eq(tag, [got[i] * got[i] for i in range(n)], O.diag(pb.total_cov(p)))
+    elif r2 == "y_total_cov_mat":
+        cx.eq(tag, got, pb.axis_cov("y", p))
+    elif r2 == "y_model_cor_mat":
+        V = pb.axis_cov("y", p, which=("model",))
+        for i in range(n):
+            cx.assume(V[i][i] > 0)
+        cx.eq(tag, [[got[i, j] * got[i, j] * V[i][i] * V[j][j] for j in range(n)] for i in range(n)], [[V[i][j] * V[i][j] for j in range(n)] for i in range(n)])
+    else:
+        raise ValueError(r2)
+
+
 def sc_twin(cx):
     """sensitivity twin: an oracle that forgets the mutator must be refuted"""
     a = _setup(cx, "xy", "plain")
@@ -188,6 +227,16 @@ def scenarios(tier, seed):
                     if variant == "qr" and r2 in ("cost_function_value", "goodness_of_fit") and m not in ("none", "add-abs", "constraint", "set-par", "disable"):
                         continue
                     add("xy", variant, [r1], [m], r2)
+    # documented-formula oracle after parameter changes that bypass set_parameter_values (fix with a value) or not
+    for variant in ("modelrel", "full"):
+        for m in ("fix", "set-par", "set-all", "none"):
+            for reads1 in ((), ("cost_function_value",)):
+                for r2 in ("y_model_error", "y_model_cov_mat", "total_cov_mat", "total_error", "y_model", "y_total_cov_mat", "y_model_cor_mat"):
+                    if variant == "full" and r2.startswith("y_model_"):
+                        continue
+                    if q and reads1 and r2 not in ("y_model_error", "total_cov_mat"):
+                        continue
+                    S.append(Scenario("abs/%s/%s/%s/%s" % (variant, "+".join(reads1) or "none", m, r2), sc_abs, family="abs/%s/%s" % (m, r2), params=dict(variant=variant, mut=m, r2=r2, reads1=tuple(reads1))))
     # several reads before the mutator
     for m in MUTS_XY:
         add("xy", "rel", ["cost_function_value", "total_cov_mat", "total_error", "y_model", "goodness_of_fit", "ndf"], [m], "cost_function_value")
